@@ -107,8 +107,10 @@ def process_graphql_query(
         try:
             ast = parse(document)
         except GraphQLSyntaxError as err:
+            # The parsing stage must be closed before the query one.
+            instrumentation.on_parsing_end()
             return _abort(errors=[err])
-        finally:
+        else:
             instrumentation.on_parsing_end()
     else:
         ast = document
